@@ -54,6 +54,9 @@ func writeSMT(o *Obligation, path string, axioms []*Term, forCVC5 bool, getValue
 	for _, t := range terms {
 		collectSyms(t, bound, syms, sorts)
 	}
+	for _, t := range getValues {
+		collectSyms(t, bound, syms, sorts)
+	}
 	// definitions: closure, in creation order
 	defByName := map[string]*Def{}
 	for _, d := range o.Defs {
@@ -297,7 +300,115 @@ func runSolver(ctx context.Context, sp solverSpec, file string, secs int) solveR
 }
 
 // discharge decides one obligation by racing the solvers.
+// shape: skolemise a universally quantified goal and instantiate universally quantified hypotheses at the
+// skolem constants (by sort); the original hypotheses are kept.
+func shape(o *Obligation) {
+	if o.Cover || o.shaped {
+		return
+	}
+	o.shaped = true
+	goal := o.Goal
+	var sks []*Term
+	var prem []*Term
+	n := 0
+	for {
+		if goal.Op == "forall" {
+			m := map[string]*Term{}
+			for _, v := range goal.Bound {
+				n++
+				sk := Var(fmt.Sprintf("sk!%d!%s", n, v.Name), v.Sort)
+				m[v.Name] = sk
+				sks = append(sks, sk)
+			}
+			goal = subst(goal.Args[0], m)
+			continue
+		}
+		if goal.Op == "=>" && goal.Args[1].Op == "forall" {
+			prem = append(prem, goal.Args[0])
+			goal = goal.Args[1]
+			continue
+		}
+		break
+	}
+	if len(sks) == 0 {
+		return
+	}
+	o.Goal = goal
+	hyps := append([]*Term{}, o.Hyps...)
+	hyps = append(hyps, prem...)
+	var insts []*Term
+	for _, h := range o.Hyps {
+		insts = append(insts, instantiateAt(h, sks, 0)...)
+		if len(insts) > 200 {
+			break
+		}
+	}
+	for _, ax := range o.Axioms {
+		insts = append(insts, instantiateAt(ax, sks, 0)...)
+	}
+	o.Hyps = append(hyps, insts...)
+}
+
+// instantiateAt returns instances of (possibly guarded) universally quantified h at skolems of matching sorts.
+func instantiateAt(h *Term, sks []*Term, depth int) []*Term {
+	if depth > 2 {
+		return nil
+	}
+	switch h.Op {
+	case "and":
+		var out []*Term
+		for _, a := range h.Args {
+			out = append(out, instantiateAt(a, sks, depth)...)
+		}
+		return out
+	case "=>":
+		var out []*Term
+		for _, x := range instantiateAt(h.Args[1], sks, depth) {
+			out = append(out, Implies(h.Args[0], x))
+		}
+		return out
+	case "forall":
+		// candidate lists per bound variable
+		cands := make([][]*Term, len(h.Bound))
+		for i, v := range h.Bound {
+			for _, sk := range sks {
+				if sk.Sort == v.Sort {
+					cands[i] = append(cands[i], sk)
+				}
+			}
+			if len(cands[i]) == 0 {
+				return nil
+			}
+		}
+		var out []*Term
+		var rec func(i int, m map[string]*Term)
+		rec = func(i int, m map[string]*Term) {
+			if len(out) > 16 {
+				return
+			}
+			if i == len(h.Bound) {
+				mm := map[string]*Term{}
+				for k, v := range m {
+					mm[k] = v
+				}
+				inst := subst(h.Args[0], mm)
+				out = append(out, inst)
+				out = append(out, instantiateAt(inst, sks, depth+1)...)
+				return
+			}
+			for _, cd := range cands[i] {
+				m[h.Bound[i].Name] = cd
+				rec(i+1, m)
+			}
+		}
+		rec(0, map[string]*Term{})
+		return out
+	}
+	return nil
+}
+
 func discharge(o *Obligation, dir string, axioms []*Term, secs int, thorough bool) {
+	shape(o)
 	h := sha1.Sum([]byte(o.Name))
 	base := sanitize(o.Name)
 	if len(base) > 120 {
